@@ -9,5 +9,6 @@ let () =
   | "expect" -> D_expect.run ()
   | "rules" -> D_rules.run ()
   | "cram" -> D_docs.run_cram ()
+  | "md" -> D_docs.run_md ()
   | "validate" -> D_exec.run_validate ()
   | x -> prerr_endline ("unknown " ^ x); exit 2
